@@ -22,7 +22,9 @@
 EXTENDS Naturals, Sequences, FiniteSets, TLC
 SubjKind == {"builtin", "stdpkg"}
 PkgDecl   == {"none", "func", "var"}               \* package block: a function / a variable (func-typed for a builtin name, with like-named methods for a package name)
-FileDecl  == {"none", "realImport", "fakeImport"}  \* file block: import of the real std package / of another package under that name
+FileDecl  == {"none", "realImport", "fakeImport", "dotReal", "dotFake"}
+             \* file block: import of the real std package / of another package under that name; dot-import of the real package /
+             \* of another package with the same package NAME (the member is then called unqualified)
 ParamDecl == {"none", "param"}
 LocalDecl == {"none", "local"}
 Shapes    == {"normal", "zeroArgs"}
@@ -36,7 +38,7 @@ ResolvedP(p, f, pa, l) == IF l # "none" THEN "local"
                           ELSE IF f # "none" THEN f
                           ELSE IF p # "none" THEN "pkg"
                           ELSE "universe"
-RealAPIP(k, p, f, pa, l) == (k = "builtin" /\ ResolvedP(p, f, pa, l) = "universe") \/ (k = "stdpkg" /\ ResolvedP(p, f, pa, l) = "realImport")
+RealAPIP(k, p, f, pa, l) == (k = "builtin" /\ ResolvedP(p, f, pa, l) = "universe") \/ (k = "stdpkg" /\ ResolvedP(p, f, pa, l) \in {"realImport", "dotReal"})
 
 WellFormedP(k, va, p, f, pa, l, sh) ==
   /\ (sh = "zeroArgs" /\ ~va => ~RealAPIP(k, p, f, pa, l))   \* a real builtin / std function that needs arguments
@@ -46,6 +48,8 @@ WellFormedP(k, va, p, f, pa, l, sh) ==
   /\ (k = "stdpkg" /\ ResolvedP(p, f, pa, l) = "pkg" => p # "func")   \* a selector call needs a value with methods or a package
 
 Init == /\ kind \in SubjKind /\ variadic \in BOOLEAN /\ pkgD \in PkgDecl /\ fileD \in FileDecl /\ paramD \in ParamDecl /\ localD \in LocalDecl /\ shape \in Shapes
+        /\ (kind = "builtin" => fileD = "none")            \* a builtin is not reached through a package name: nothing to render
+        /\ (fileD \in {"dotReal", "dotFake"} => (kind = "stdpkg" /\ pkgD = "none" /\ paramD = "none" /\ localD = "none"))   \* dot-import cases are swept on their own
         /\ wellFormed = WellFormedP(kind, variadic, pkgD, fileD, paramD, localD, shape)
         /\ resolved = ResolvedP(pkgD, fileD, paramD, localD)
         /\ realAPI = RealAPIP(kind, pkgD, fileD, paramD, localD)
@@ -53,7 +57,7 @@ Next == UNCHANGED vars
 Spec == Init /\ [][Next]_vars
 
 Recognises(style) == CASE style = "bySpelling" -> TRUE
-                       [] style = "byPkgObject" -> (kind = "stdpkg" /\ resolved = "realImport") \/ (kind = "builtin")
+                       [] style = "byPkgObject" -> (kind = "stdpkg" /\ resolved \in {"realImport", "dotReal"}) \/ (kind = "builtin")
                        [] style = "byObject" -> realAPI
 OnlyRealByObject == (wellFormed /\ Recognises("byObject")) => realAPI
 OnlyRealBySpelling == (wellFormed /\ Recognises("bySpelling")) => realAPI
